@@ -189,7 +189,7 @@ def setOffset (f : Fam) (x : Obj) (arg : Int) : Except Err Obj :=
     .ok { x with ip := ip }
   else .error .addressValueError
 
-/-! ### `collapse_addresses` (C12, correspondence only)
+/-! ### `collapse_addresses` (C12)
 
 The function maps every object to `obj.network` and calls
 `ipaddress.collapse_addresses`.  Below: that stdlib routine for a list of networks
@@ -229,10 +229,14 @@ def dropCovered (f : Fam) : Option Net → List Net → List Net
     if netBcast f last ≥ netBcast f n then dropCovered f (some last) ns
     else n :: dropCovered f (some n) ns
 
-/-- `list(collapse_addresses(objs))`; `to_merge.pop()` takes from the end of the list -/
-def collapse (f : Fam) (objs : List Obj) : List Net :=
-  let toMerge := (objs.map network).reverse
+/-- `list(ipaddress.collapse_addresses(nets))` for a list of networks; `to_merge.pop()` takes from
+the end of the list.  The loop needs at most `2 * len` rounds (proved in `Ccp.Proofs.IPVal`). -/
+def collapseNets (f : Fam) (nets : List Net) : List Net :=
+  let toMerge := nets.reverse
   let subnets := mergeLoop f ((f.w + 2) * (toMerge.length + 1)) toMerge []
   dropCovered f none ((subnets.map (·.2)).mergeSort netLe)
+
+/-- `list(collapse_addresses(objs))`: every object is mapped to `obj.network` first -/
+def collapse (f : Fam) (objs : List Obj) : List Net := collapseNets f (objs.map network)
 
 end Ccp.IPVal
